@@ -2,7 +2,7 @@
    All functions named nary_* are slices of sc_notify_recursive_nary GENERATED from /repo (Gen/NotifyC01.v). *)
 From Coq Require Import ZArith List Bool.
 From Coq Require Import Permutation Lia.
-From ScV Require Import Base.CInt Gen.NotifyC01 C01.NaryArith C01.NaryDelivery C01.MergeModel C01.MergeProofs C01.MergeCorr Gen.Consts C18.MacroProofs C01.BinaryArith MPI.Prog C01.NotifyProgs C01.NotifyProgProofs.
+From ScV Require Import Base.CInt Gen.NotifyC01 C01.NaryArith C01.NaryDelivery C01.MergeModel C01.MergeProofs C01.MergeCorr Gen.Consts C18.MacroProofs C01.BinaryArith MPI.Prog C01.NotifyProgs C01.NotifyProgProofs C01.RecordOps C01.BinaryRound C01.NaryRound.
 Import ListNotations.
 Local Open Scope Z_scope.
 
@@ -247,3 +247,136 @@ Example C01_programs_nonvacuous :
   snd (run [[2]; [2]; [0]] (census_core K_RSB 3 (R 1) None true (fun s g => Ret (result s g)))) = Some [2; 0; 2] /\
   snd (run [[2]; [2]; [0]] (census_core K_RSB 3 (R 1) None false (fun s g => Ret (result s g)))) = Some [2; 2; 0].
 Proof. repeat split; vm_compute; reflexivity. Qed.
+
+(* ---- RECORD-LEVEL ROUND SEMANTICS of the binary algorithm, about the co-simulated program binary_core ----------
+   spec G R j q    the canonical record array of the notifications (t, f) whose holder after j levels is q
+                   (holder = BinaryArith.bdeliver, built from the generated slice binary_peers);
+   msg / wire      the records rank q sends at level j (destination not congruent to q modulo 2 * 2^j) / their ints;
+   lvl_replies     what MPI hands back to `me` at level j: [] for its send, then (source :: wire j source) for its
+                   sources - the messages the OTHER ranks' programs send (lvl_acts) - first2 = true: the wildcard
+                   probe matches peer2's message first.  Round abstraction: a wildcard receive on a level's tag
+                   returns one of that level's messages addressed to the rank, each once, in either order. *)
+
+(* one level, merge algebra + matching + routing composed: merging the kept records with the messages of the
+   sources in ANY order (srcs: any duplicate-free enumeration of the ranks whose peer is me) gives spec (j+1) *)
+Theorem C01_binary_level_merge : forall G (R : Z -> list Z), 0 < G <= BIG ->
+  forall (j : nat) me (srcs : list Z), 2 * 2 ^ Z.of_nat j <= BIG -> 0 <= me < G -> NoDup srcs -> ~ In me srcs ->
+  (forall q, 0 <= q < G -> (bpeer (Z.of_nat j) G q = me <-> In q srcs)) ->
+  fold_left rmerge (map (msg G R j) srcs) (bkeep j me (spec G R j me)) = spec G R (S j) me.
+Proof. exact level_merge. Qed.
+Print Assumptions C01_binary_level_merge.
+
+(* one level of the PROGRAM: fed with the messages of its sources in either arrival order it issues exactly the
+   send / receives of lvl_acts and continues with the array spec (j+1) *)
+Theorem C01_binary_level_program : forall G (R : Z -> list Z), 0 < G <= BIG ->
+  forall (j : nat) me (first2 : bool) (k : list Z -> prog) rest, 2 * 2 ^ Z.of_nat j <= BIG -> 0 <= me < G ->
+  run (lvl_replies G R j me first2 ++ rest) (binary_level G me (2 * 2 ^ Z.of_nat j) (encode (spec G R j me)) k) =
+  let '(a, o) := run rest (k (encode (spec G R (S j) me))) in (lvl_acts G R j me first2 ++ a, o).
+Proof. exact run_binary_level. Qed.
+Print Assumptions C01_binary_level_program.
+
+(* the whole call: for every communicator size, every family of ascending receiver lists and every choice of
+   arrival orders at all levels and ranks, the program of every rank returns the ascending list of the ranks that
+   listed it *)
+Theorem C01_binary_round_semantics : forall G (R : Z -> list Z), 0 < G <= BIG ->
+  (forall f, 0 <= f < G -> ssorted (fun x => x) (R f) /\ forall t, In t (R f) -> 0 <= t < G) ->
+  exists n : nat, binary_pow2length G = 2 ^ Z.of_nat n /\
+  forall (first2 : nat -> Z -> bool) me, 0 <= me < G ->
+    run (levels_replies G R first2 0 n me) (binary_core G me (R me) None (fun s g => Ret (result s g)))
+    = (levels_acts G R first2 0 n me, Some (result (transpose G R me) [])).
+Proof. exact binary_round_semantics_all. Qed.
+Print Assumptions C01_binary_round_semantics.
+
+Example C01_binary_round_nonvacuous :
+  let R := fun f : Z => if f =? 0 then [1; 2] else if f =? 2 then [1] else [] in
+  binary_pow2length 3 = 2 ^ Z.of_nat 2 /\
+  (* rank 1 of 3 is listed by 0 and 2; both arrival orders at every level *)
+  snd (run (levels_replies 3 R (fun _ _ => true) 0 2 1) (binary_core 3 1 (R 1) None (fun s g => Ret (result s g)))) = Some [2; 0; 2] /\
+  snd (run (levels_replies 3 R (fun _ _ => false) 0 2 1) (binary_core 3 1 (R 1) None (fun s g => Ret (result s g)))) = Some [2; 0; 2] /\
+  levels_acts 3 R (fun _ _ => false) 0 2 0 = [Send 1 229 [1; 1; 0]; Recv ANY 229; Send 2 230 [2; 1; 0]; Recv ANY 230].
+Proof. cbv zeta. repeat split; vm_compute; reflexivity. Qed.
+
+(* ---- RECORD-LEVEL ROUND SEMANTICS of the n-ary recursion, about the co-simulated programs nary_level / nary_run ----
+   specH G R payf hold q   canonical array of the notifications whose holder (hold f t) is q; payf = payload ints;
+   a level with part length L and width D: rank q sends partj j (records of destination part j = nary_topart) to
+   nary_peer q j, receives nary_nrecv wildcard messages, files them by nary_slot and merges the slots pairwise.
+   senders G L D me = the ranks me + (k - mypart) * L, k = 0..nrecv, k <> mypart (C01_nary_matching).
+   Round abstraction = hypothesis `Permutation order (senders ..)` / levels_ok: the wildcard receives of a level
+   return the messages of the level's sources, each once, in the order `order`. *)
+
+(* matching + routing + merge algebra: an array holding exactly my own part and the parts addressed to me is the
+   canonical array of the next level *)
+Theorem C01_nary_level_union : forall G L D (R : Z -> list Z) (payf : Z -> Z -> list Z),
+  0 < L -> 2 <= D -> 0 < G <= BIG -> D * L <= BIG ->
+  forall hold : Z -> Z -> Z,
+  (forall f t, 0 <= f < G -> 0 <= t < G -> 0 <= hold f t < G /\ t mod L = hold f t mod L) ->
+  forall me (x : list rcd), 0 <= me < G -> wfr x ->
+  (forall p, In p (pairs x) <->
+             In p (pairs (partj L D (npart L D me) (specH G R payf hold me))) \/
+             exists q, In q (senders G L D me) /\ In p (pairs (partj L D (npart L D me) (specH G R payf hold q)))) ->
+  x = specH G R payf (hold' G L D hold) me.
+Proof. exact nary_level_union. Qed.
+Print Assumptions C01_nary_level_union.
+
+(* one level of the PROGRAM, any arrival order of the nrecv messages: sends, wildcard receives, slots, merge tree *)
+Theorem C01_nary_level_program : forall G L D (R : Z -> list Z) (payf : Z -> Z -> list Z),
+  0 < L -> 2 <= D -> 0 < G <= BIG -> D * L <= BIG ->
+  forall hold : Z -> Z -> Z,
+  (forall f t, 0 <= f < G -> 0 <= t < G -> 0 <= hold f t < G /\ t mod L = hold f t mod L) ->
+  forall n : nat, (forall f t, length (payf f t) = n) ->
+  forall level depth ntop nint nbot, nary_divn level depth nbot ntop nint = D ->
+  forall me (order : list Z) (k : list Z -> prog) rest, 0 <= me < G -> Permutation order (senders G L D me) ->
+  run (nlvl_replies G L D R payf hold level me order ++ rest)
+      (nary_level G me (Z.of_nat n) level depth ntop nint nbot (gstart L D me) (D * L) (encode (specH G R payf hold me)) k) =
+  let '(a, o) := run rest (k (encode (specH G R payf (hold' G L D hold) me))) in (nlvl_acts G L D R payf hold level me ++ a, o).
+Proof. exact run_nary_level. Qed.
+Print Assumptions C01_nary_level_program.
+
+(* all levels (ls = (level index, width) from the deepest level to the top, widths >= 2, product >= G): every rank
+   ends with the ascending list of the ranks that listed it, for every receiver family and all arrival orders *)
+Theorem C01_nary_round_semantics : forall G (R : Z -> list Z), 0 < G <= BIG ->
+  (forall f, 0 <= f < G -> ssorted (fun x => x) (R f) /\ forall t, In t (R f) -> 0 <= t < G) ->
+  forall depth ntop nint nbot (ls : list (Z * Z)), G <= prodl (map snd ls) -> prodl (map snd ls) <= BIG ->
+  forall orders : Z -> Z -> list Z,
+  (forall me, 0 <= me < G -> levels_ok G depth ntop nint nbot me (orders me) 1 ls) ->
+  forall me sz0, 0 <= me < G ->
+  run (all_replies G R (fun _ _ => []) me (orders me) 1 ls h0)
+      (nary_run G me 0 depth ntop nint nbot (mk_lv me 1 ls) (init_input me (R me) None 0)
+                (fun arr => let '(s, p) := reset_output arr 0 sz0 false in Ret (result s p)))
+  = (all_acts G R (fun _ _ => []) me 1 ls h0, Some (result (transpose G R me) [])).
+Proof. exact nary_round_semantics. Qed.
+Print Assumptions C01_nary_round_semantics.
+
+(* the entry point nary_core.  PARTIAL: the full statement has no hypotheses Hdepth / Hdesc; they state what the
+   generated depth loop (nary_depth) and the descent of the recursion (nary_descent) compute for the configuration -
+   closed computations for concrete widths and size (see the example), not yet derived for all widths *)
+Theorem C01_nary_core_round_semantics_partial : forall G (R : Z -> list Z) ntop nint nbot depth prod (ls : list (Z * Z)) (orders : Z -> Z -> list Z) sz0,
+  0 < G <= BIG -> G <> 1 ->
+  (forall f, 0 <= f < G -> ssorted (fun x => x) (R f) /\ forall t, In t (R f) -> 0 <= t < G) ->
+  nary_depth 64 G nbot ntop nint = Some (depth, prod) ->
+  (forall me, 0 <= me < G -> rev (nary_descent 64 me 0 depth ntop nint nbot 0 prod) = mk_lv me 1 ls) ->
+  G <= prodl (map snd ls) -> prodl (map snd ls) <= BIG ->
+  (forall me, 0 <= me < G -> levels_ok G depth ntop nint nbot me (orders me) 1 ls) ->
+  forall me, 0 <= me < G ->
+  run (all_replies G R (fun _ _ => []) me (orders me) 1 ls h0)
+      (nary_core G me ntop nint nbot (R me) None sz0 (fun s g => Ret (result s g)))
+  = (all_acts G R (fun _ _ => []) me 1 ls h0, Some (result (transpose G R me) [])).
+Proof. exact nary_core_round_semantics. Qed.
+Print Assumptions C01_nary_core_round_semantics_partial.
+
+Example C01_nary_round_nonvacuous :
+  (* 5 ranks, widths ntop = nint = nbot = 2: depth 3, product 8; levels from the deepest: (2,2) (1,2) (0,2) *)
+  let ls := [(2, 2); (1, 2); (0, 2)] in
+  let orders := fun me lev => senders 5 (if lev =? 2 then 1 else if lev =? 1 then 2 else 4) 2 me in
+  nary_depth 64 5 2 2 2 = Some (3, 8) /\
+  (forall me, 0 <= me < 5 -> rev (nary_descent 64 me 0 3 2 2 2 0 8) = mk_lv me 1 ls) /\
+  (forall me, 0 <= me < 5 -> levels_ok 5 3 2 2 2 me (orders me) 1 ls) /\
+  senders 5 1 2 3 = [2; 4] /\ senders 5 2 2 1 = [3] /\ senders 5 4 2 0 = [4].
+Proof.
+  cbv zeta. split; [vm_compute; reflexivity|]. split; [|split].
+  - intros me H. assert (E : me = 0 \/ me = 1 \/ me = 2 \/ me = 3 \/ me = 4) by lia.
+    destruct E as [-> | [-> | [-> | [-> | ->]]]]; vm_compute; reflexivity.
+  - intros me H. assert (E : me = 0 \/ me = 1 \/ me = 2 \/ me = 3 \/ me = 4) by lia.
+    destruct E as [-> | [-> | [-> | [-> | ->]]]]; cbn [levels_ok]; repeat match goal with |- _ /\ _ => split end; try (unfold BIG; lia); try reflexivity; try exact I; apply Permutation_refl.
+  - repeat split; vm_compute; reflexivity.
+Qed.
